@@ -454,7 +454,8 @@ where
             signing_config.expiration,
         );
 
-        // Sign the NSEC(3)s.
+        // Sign the collection written to: the NSEC(3)s and, when signing
+        // in place, the zone itself.
         let owner_rrs = RecordsIter::new_from_owned(in_out.as_out_slice());
 
         let rrsigs = sign_sorted_zone_records(
@@ -467,6 +468,21 @@ where
         // Sorting may not be strictly needed, but we don't have the option to
         // extend without sort at the moment.
         in_out.sorted_extend(rrsigs.into_iter().map(Record::from_record));
+
+        // When signing into a separate collection the pass above only saw
+        // the generated records: sign the original unsigned records too.
+        if matches!(in_out, SignableZoneInOut::SignInto(..)) {
+            let owner_rrs = RecordsIter::new_from_owned(in_out.as_slice());
+
+            let rrsigs = sign_sorted_zone_records(
+                apex_owner,
+                owner_rrs,
+                signing_keys,
+                &rrsig_config,
+            )?;
+
+            in_out.sorted_extend(rrsigs.into_iter().map(Record::from_record));
+        }
     }
 
     Ok(())
